@@ -35,7 +35,7 @@ void *memmove(void *d, const void *s, size_t n)
 #define NB 4 /* largest order / length of the bounded units */
 #endif
 #ifndef NBIG
-#define NBIG 65536u /* orders of the units that need no unwinding */
+#define NBIG 0xFFFFFFFFu /* orders of the units that need no unwinding: every unsigned order */
 #endif
 /* exactly sized block of n reals (n == 0: a one-byte block, every a_real access is outside) */
 static a_real *block_sym(a_size n) /* symbolic n: untyped block */
